@@ -284,6 +284,7 @@ func (t *Target) HealthCheckCompleted(success bool) {
 		slog.Info("Target health updated", "target", t.Target(), "state", newState.String(), "was", previousState.String())
 
 		if !draining && t.stateConsumer != nil {
+			verifPoint("target.health.notifying", t.Target(), success)
 			t.stateConsumer.TargetStateChanged(t)
 		}
 	}
